@@ -107,6 +107,7 @@ class SetObj:
     items: Optional[tuple] = None  # concrete spine (elements may be symbolic)
     sv: Optional[SV] = None
     frozen: bool = False
+    enum: Optional[SV] = None  # a duplicate-free symbolic list known to enumerate exactly this set
 
 
 @dataclass(frozen=True)
